@@ -42,7 +42,9 @@ func fzSystematic() (always, rest []*fzCase) {
 						c.positioned = fzPositionedNote(t.name, args) && t.name != "recv"
 						c.feat("notation", t.name)
 						// the $-forms and path forms in source position are the most structured inputs: always run
-						if cat == "dollar" && ((t.name == "map" && pos == 0) || (t.name == "conv" && pos == 1)) {
+						// so are the shortest slash forms ("/", "//", "/a") wherever a pattern or path is read
+						shortSlash := cat == "slash" && si == 0 && (t.name == "skip" || t.name == "map" || (t.name == "conv" && pos > 0) || (t.name == "literal" && pos == 0))
+						if shortSlash || (cat == "dollar" && ((t.name == "map" && pos == 0) || (t.name == "conv" && pos == 1))) {
 							always = append(always, c)
 						} else {
 							rest = append(rest, c)
